@@ -14,12 +14,12 @@ import (
 type fwdMode int
 
 const (
-	fwdPlain   fwdMode = iota // for ... { x.M(params) }
-	fwdCollect                // list = append(list, x.M(params)); returned inside a composite
-	fwdErrExit                // if err := x.M(params); err != nil { return ..., err }
-	fwdBoolAnd                // if ok := x.M(); !ok { return false } ... return true
-	fwdCapsAnd                // acc.f = acc.f && x.M().F() for every capability
-	fwdAllFirstErr            // every child is called whatever the others answered; the first error is returned
+	fwdPlain       fwdMode = iota // for ... { x.M(params) }
+	fwdCollect                    // list = append(list, x.M(params)); returned inside a composite
+	fwdErrExit                    // if err := x.M(params); err != nil { return ..., err }
+	fwdBoolAnd                    // if ok := x.M(); !ok { return false } ... return true
+	fwdCapsAnd                    // acc.f = acc.f && x.M().F() for every capability
+	fwdAllFirstErr                // every child is called whatever the others answered; the first error is returned
 )
 
 type fwdSpec struct {
